@@ -142,6 +142,31 @@ def flow_matrix():
     return out
 
 
+def project_calls():
+    """the same call conformance across FILES of a project: a function, a class and a method imported by name from another
+    file are checked against their declared signatures -> [(label, files, expected 'accept' | 'reject')]"""
+    lib = ("class Shape(def name: Str, def sides: Int := 4)\n    def describe(self, prefix: Str) -> Str => prefix + self.name\n"
+           "def scale(x: Float, factor: Float := 2.0) -> Float => x * factor\ndef label(s: Shape) -> Str => s.name\ndef make() -> Shape => Shape(\"sq\")\n")
+    uses = [
+        ("function/conforming", "def w: Float := scale(3.0)", "accept"), ("function/conforming-default-given", "def w: Float := scale(3.0, 1.5)", "accept"),
+        ("function/too-few", "def w: Float := scale()", "reject"), ("function/too-many", "def w: Float := scale(1.0, 2.0, 3.0)", "reject"),
+        ("function/wrong-type", "def w: Float := scale(\"s\")", "reject"), ("function/wrong-default-type", "def w: Float := scale(1.0, \"s\")", "reject"),
+        ("function/result-misused", "def w: Str := scale(3.0)", "reject"), ("function/result-used", "def w: Float := scale(3.0) + 1.0", "accept"),
+        ("function/class-argument", "def w: Str := label(make())", "accept"), ("function/class-argument-wrong", "def w: Str := label(3)", "reject"),
+        ("constructor/conforming", "def w := Shape(\"t\")", "accept"), ("constructor/too-few", "def w := Shape()", "reject"), ("constructor/wrong-type", "def w := Shape(3)", "reject"),
+        ("method/conforming", "def w: Str := make().describe(\"a \")", "accept"), ("method/too-few", "def w: Str := make().describe()", "reject"),
+        ("method/wrong-type", "def w: Str := make().describe(3)", "reject"), ("method/result-misused", "def w: Int := make().describe(\"a\")", "reject"),
+    ]
+    out = []
+    for label, use, exp in uses:
+        for layout in ("lib-first", "lib-last", "nested"):
+            libname = {"lib-first": "a_shapes", "lib-last": "z_shapes", "nested": "pkg/shapes"}[layout]
+            imp = "from %s import Shape, scale, label, make\n" % libname.split("/")[-1]
+            out.append(("project/%s/%s" % (label, layout), [(libname + ".mamba", lib), ("main.mamba", imp + use + "\n")], exp))
+            out.append(("project/%s/%s/in-function" % (label, layout), [(libname + ".mamba", lib), ("main.mamba", imp + "def go() -> Int =>\n    " + use + "\n    1\n")], exp))
+    return out
+
+
 def impl_class(r):
     if r[0] == "ok":
         return "accept"
@@ -247,6 +272,24 @@ def run(chk):
     chk.cov["correspondence"] = {"model": "MV.callCheck with MV.isSuperset on the dumped class table (Model/CallConf.lean, Model/Ty.lean) vs the checker's verdict on the call", "evaluations": len(cases) if mod else 0, "agreements": stats}
     chk.cov["oracle"] = {"spec": "verdict on a call/constructor/method call == conformance to the declared signature (arity with defaults, each argument assignable), at every position; well-typed generated programs are accepted",
                          "calls": len(cases), "by_position": by_pos, "generated_programs": len(progs), "over_rejected": over}
+    # ---- the same across files of a project
+    import c13 as _c13
+    pcs = project_calls()
+    pres = chk.harness("proj", [("pc%d" % i, _c13.payload(files)) for i, (_, files, _) in enumerate(pcs)], parallel=16)
+    pstats = {"accept": 0, "reject": 0}
+    for i, (label, files, exp) in enumerate(pcs):
+        verdict, msgs, _tree = _c13.parse_result(pres.get("pc%d" % i, "MISSING"))
+        got = "accept" if verdict == "ok" else "reject" if verdict == "err" else "crash"
+        pstats[got] = pstats.get(got, 0) + 1
+        if got != exp:
+            why = "%s: %s" % (label, "a call that does not conform to the imported signature is ACCEPTED" if exp == "reject" else
+                              "a conforming call of an imported definition is REJECTED: " + (msgs[0].splitlines()[0][:200] if msgs else got))
+            f = chk.known(label)
+            if f:
+                chk.report_known(f, why)
+            elif len(chk.violations) < 6:
+                chk.violation("input", why, case={"kind": "proj", "files": files}, expected=exp, actual=(msgs[0][:800] if msgs else got))
+    chk.cov["oracle_projects"] = {"spec": "calls of functions, constructors and methods imported by name from another file of the project: accepted iff they conform to the declared signature", "cases": len(pcs), "stats": pstats}
     chk.cov["evaluations"] = len(cases) + len(progs) + len(flows)
     chk.cov["distinct_nontrivial"] = len(set(texts))
     chk.cov["rule"] = "distinct (signature, argument list, position) programs: 0-3 parameters over Int/Float/Str/Bool/classes/Int? with trailing defaults; arguments conforming or with one fault (type, missing, extra); positions top/function/method/constructor/nested/branch/loop; each argument passed as a literal, an inferred local, an annotated local or a function result"
